@@ -161,8 +161,7 @@ def restore(folder, cfg):
 
 @contextlib.contextmanager
 def scratch():
-    base = "/dev/shm" if Path("/dev/shm").is_dir() else None
-    d = tempfile.mkdtemp(prefix="vf_", dir=base)
+    d = tempfile.mkdtemp(prefix="vf_")   # below the run's private temp directory (vf/cli.py sets TMPDIR)
     try:
         yield Path(d)
     finally:
